@@ -40,13 +40,16 @@ def run(tier, seed):
     lem = c04._write(os.path.join(wd, "lemmas.cfg"),
                      "SPECIFICATION LSpec\nCONSTANTS\n  Objs = {}\n  NMax = 0\n  EMax = 0\n  MaxCalls = 1\n  E2 = %d\n  E3 = 1\n" % (2 if quick else 3))
     d2 = c04._write(os.path.join(wd, "design2.cfg"),
-                    "SPECIFICATION Spec\nCONSTANTS\n  Objs = {1, 2}\n  NMax = 2\n  EMax = %d\n  MaxCalls = 3\nINVARIANTS %s\nCHECK_DEADLOCK FALSE\n" % (1 if quick else 2, INV))
+                    "SPECIFICATION Spec\nCONSTANTS\n  Objs = {1, 2}\n  NMax = 2\n  EMax = 1\n  MaxCalls = 3\nINVARIANTS %s\nCHECK_DEADLOCK FALSE\n" % INV)
     jobs = [("LuLemmas", "LuLemmas", lem, 2, False), ("LuInt/two-objects-2x2", "LuInt", d2, 6, True)]
     if not quick:
         d3 = c04._write(os.path.join(wd, "design3.cfg"),
                         "SPECIFICATION Spec\nCONSTANTS\n  Objs = {1}\n  NMax = 3\n  EMax = 1\n  MaxCalls = 2\nINVARIANTS %s\nCHECK_DEADLOCK FALSE\n" % INV)
         jobs.append(("LuInt/one-object-3x3", "LuInt", d3, 6, False))
-    with ThreadPoolExecutor(max_workers=3) as ex:
+        d4 = c04._write(os.path.join(wd, "design4.cfg"),
+                        "SPECIFICATION Spec\nCONSTANTS\n  Objs = {1}\n  NMax = 2\n  EMax = 3\n  MaxCalls = 2\nINVARIANTS %s\nCHECK_DEADLOCK FALSE\n" % INV)
+        jobs.append(("LuInt/one-object-2x2-wide", "LuInt", d4, 4, False))
+    with ThreadPoolExecutor(max_workers=4) as ex:
         futs = [(j, ex.submit(vc.tlc, SPEC, j[1], j[2], workers=j[3], coverage=j[4], timeout=6000, heap="6g")) for j in jobs]
         results = [(j, f.result()) for j, f in futs]
     for (name, module, cfg, w, cov), r in results:
@@ -64,7 +67,7 @@ def run(tier, seed):
             raise vc.MachineryError("TLC did not complete on %s: %s\n%s" % (name, r.other_error, r.out[-2000:]))
 
     exe = build_driver()
-    runs = [("exh2", ["--mode", "exh2"]), ("random", ["--mode", "random", "--n", 450 if quick else 9000])]
+    runs = [("exh2", ["--mode", "exh2"]), ("random", ["--mode", "random", "--n", 800 if quick else 9000])]
     for name, args in runs:
         tr = os.path.join(wd, "trace-%s.ndjson" % name)
         s = c04.run_driver(exe, args, tr)
@@ -89,11 +92,13 @@ def run(tier, seed):
                       "X is logged as round(d.X) with the flag max|d.X - round| < 0.25 (d = exact determinant, recomputed by TLC)",
                       "L.U is formed by the driver in extended precision and rounded (flag: within 1e-6)",
                       "integer matrices only; entry bounds chosen per size so that every exact minor stays below 2^31 (solves whose scaled solution would exceed it are counted in skipped_big and only their outcome is judged)"]
+    c04.cleanup_tlc_droppings(["LuInt", "LuLemmas"])
     return ck.finish()
 
 
 def replay(path):
     n_ev, rej, st = vc.validate_trace(SPEC, "LuIntTrace", TRACE_CFG, path, parallel=1)
+    c04.cleanup_tlc_droppings(["LuInt"])
     for rj in rej:
         vc.log("VIOLATION property=C05 replay=%s" % path)
         vc.log("  %s at event #%d: %s" % (rj.reason, rj.index, json.dumps(rj.event)[:800]))
